@@ -2,7 +2,8 @@
 """Development tool: apply each stored change to a scratch copy of /repo and run all 20 quick checks against it
 (NX_REPO / NX_SCRATCH; /repo and the registered checks' caches stay untouched).
   tools/matrix.py seeded   [ids..]   property-breaking changes (seeded/<id>/): writes seeded/RESULTS.json (detected_by)
-  tools/matrix.py refactor [ids..]   behaviour-preserving changes (seeded/refactor/<id>/): every alarm is a false alarm"""
+  tools/matrix.py refactor [ids..]   behaviour-preserving changes (seeded/refactor/<id>/): every alarm is a false alarm
+  tools/matrix.py micro    [ids..]   small behaviour-preserving edits (seeded/micro/<id>/): likewise"""
 import json, os, subprocess, sys, time, concurrent.futures as cf
 VERIF = os.path.dirname(os.path.dirname(os.path.abspath(__file__)))
 SCR = os.environ.get("NXM_DIR", "/tmp/nxm")
@@ -24,7 +25,7 @@ def run_check(c):
 
 def main():
     kind = sys.argv[1]
-    base = os.path.join(VERIF, "seeded") if kind == "seeded" else os.path.join(VERIF, "seeded", "refactor")
+    base = os.path.join(VERIF, "seeded") if kind == "seeded" else os.path.join(VERIF, "seeded", kind)      # refactor | micro
     ids = sys.argv[2:] or sorted(d for d in os.listdir(base) if os.path.isfile(os.path.join(base, d, "patch.diff")))
     resf = os.path.join(base, "RESULTS.json")
     res = json.load(open(resf)) if os.path.exists(resf) else {}
